@@ -623,7 +623,7 @@ func ruleCacheAgree(c *RC) *RuleResult {
 			return ""
 		}
 		for _, fn := range c.Prog.dbftFuncs() {
-			if len(fn.Params) != 1 {
+			if len(fn.Params) != 1 || c.A.higherOrder(fn) {
 				continue
 			}
 			pn := "p:" + fn.Params[0].Name()
